@@ -5,6 +5,7 @@ import (
 	"os"
 	"path/filepath"
 	"sync"
+	"sync/atomic"
 	"testing"
 	"testing/synctest"
 	"time"
@@ -56,8 +57,14 @@ var GuardProperty string
 
 type guardSlot struct {
 	desc  string
-	start time.Time
+	start int64 // guardClock at entry
 }
+
+// guardClock is REAL time in seconds since the watchdog started, published by the watchdog goroutine (which
+// lives outside every bubble). GuardEnter is usually called inside a bubble, where time.Now() is the bubble's
+// virtual clock (starting in the year 2000) - comparing that with the real clock would make every execution
+// that is in flight when the watchdog looks seem decades old. So nothing inside a bubble reads a clock here.
+var guardClock atomic.Int64
 
 var guard struct {
 	mu    sync.Mutex
@@ -85,7 +92,7 @@ func GuardEnter(desc string) func() {
 	}
 	guard.next++
 	id := guard.next
-	guard.slots[id] = &guardSlot{desc: desc, start: time.Now()}
+	guard.slots[id] = &guardSlot{desc: desc, start: guardClock.Load()}
 	guard.mu.Unlock()
 	return func() {
 		guard.mu.Lock()
@@ -95,11 +102,14 @@ func GuardEnter(desc string) func() {
 }
 
 func guardWatch() {
+	t0 := time.Now()
 	for {
-		time.Sleep(5 * time.Second)
+		time.Sleep(time.Second)
+		now := int64(time.Since(t0) / time.Second)
+		guardClock.Store(now)
 		guard.mu.Lock()
 		for _, s := range guard.slots {
-			if time.Since(s.start) > HangLimit {
+			if time.Duration(now-s.start)*time.Second > HangLimit {
 				dir := filepath.Join(Root, "evidence", "replays")
 				os.MkdirAll(dir, 0o755)
 				path := filepath.Join(dir, GuardProperty+"-execution-hangs-1.json")
